@@ -108,12 +108,56 @@ PROPS.update({
         assumptions=["the counter sees every allocation made through the global allocator on the calling thread"]),
 })
 
+PROPS.update({
+    "C11": dict(
+        sub="c11", cfgs=["D", "C"], hard=True,
+        rule="direct calls of the public moderate_path::<F> on (w, q, truncated): a declined result is always accepted; a definite one must be the exact rounding of w*10^q and, if truncated, its rounding interval must contain all of [w, w+1)*10^q (exact oracle). (w=0, truncated) is excluded: it denotes no input. Non-trivial: 19/20-digit w or truncated.",
+        exhaustive_over={"quick": "structured set (SEAM significands below 2^64, 0..=1100, 2^64-1-j) x every q in [-400,350] + i32 extremes x truncated in {false,true}; HARD(q) (exact ties, closest approaches, straddling truncations, low-word and second-multiplication cases) x both flags; f32 and f64; Eisel-Lemire (D) and Bellerophon (C)",
+                         "thorough": "plus dense 4096-wide windows at 10^18 and 2^63"},
+        assumptions=ASSUME_EXACT[:1] + ["a panic of the stage on meaningless triples in debug builds is recorded, not judged (a panic is not a guess)"]),
+    "C12": dict(
+        sub="c12", cfgs=["D", "C", "A", "CA"],
+        rule="every big-integer operation is executed on every member of the LIMBS operand family and compared with schoolbook naturals; overflow of the fixed capacity must be reported (stack back-end), the heap back-end may report it but never return a wrong value. Capacity is read from the crate. Preconditions as the property states them (non-zero factors, normalised operands for hi64/compare/overflow judgement).",
+        exhaustive_over={"quick": "LIMBS (~27k vectors: all <=3-limb vectors over 10 limb values, constant and one-hot vectors at lengths 4-6, 30-32, cap-2..cap) x {unary, small_add/mul x 10 scalars, small_add_from, shl_bits}; ~490-operand normalised sub-family squared x {compare, long_mul, large_mul, large_add_from x 5 offsets}; pow5 for every n in 0..=1200 x 3 operands; Bigint::pow(2|5|10, n); shl for every n in 0..=64*cap+1; shl_limbs up to cap+1",
+                         "thorough": "larger sub-family, pow to 1800"},
+        assumptions=["64-bit limbs (host)", "naturals in harness/core are correct (multiplication self-consistent with the decimal tests)"]),
+    "C13": dict(
+        sub="c13", cfgs=["D", "A"],
+        rule="every operation history (constructor followed by d operations) is executed from scratch on a fresh real vector and compared step by step with a reference Vec (with the crate's capacity for the stack vector): contents, length <= capacity, failed push/extend/resize leave contents unchanged, eq/cmp against snapshots of earlier states agree with numeric comparison, is_normalized/hi64 agree. Histories are never merged.",
+        exhaustive_over={"quick": "9 constructors x all 30-letter histories of depth 4 (7.3 M) + 9 x 12-letter core histories of depth 6 (26.9 M); StackVec (D) and HeapVec (A)",
+                         "thorough": "depth 5 full (219 M) + depth 7 core (322 M)"},
+        assumptions=["after a failed add_small/mul_small the contents are unspecified and the branch ends"]),
+    "C14": dict(
+        sub="c14", cfgs=ALL8,
+        rule="every table entry and on-demand power reachable through public items of each configuration is recomputed from its definition with naturals (division self-checked by multiplication) and compared; complete finite set.",
+        exhaustive_over="651 x 128-bit Eisel-Lemire entries (definition and semantic bound), 28+20 integer powers, 11+23 float powers, 5^135 and its step (non-compact); 10+66 Bellerophon significands with exponents and 10 integers (compact); pow_fast_path(k) for every k in all 8 configurations (table, std powf, bundled libm); bigint::pow(1,n) n<=200; parse_mantissa chunks of 1..19 digits",
+        assumptions=["the definitions are those of etc/lemire_table.py / etc/bellerophon_table.py as restated in the property"]),
+    "C17": dict(
+        sub="c17", cfgs=["D"],
+        rule="for every bit pattern: to_bits(from_bits) lossless, is_denormal == (exponent field == 0), mantissa()/exponent() equal the canonical IEEE decomposition, slow::b / bh follow from it, extended_to_float packs (biased exponent, fraction) into exactly those fields. Complete for f32.",
+        exhaustive_over={"quick": "ALL 2^32 f32 bit patterns; f64: 2048 exponent fields x 2 signs x 156 fraction patterns + complete low-20-bit sweeps of exponent fields 0, 1, 2046, 2047 both signs",
+                         "thorough": "plus 4096 seed-rotated fraction patterns per f64 exponent field"},
+        assumptions=["the helpers are configuration independent (defined in num.rs without cfg)"]),
+    "C18": dict(
+        sub="c18", cfgs=["D", "C"],
+        rule="round::<F> with the nearest-even closure (as Bellerophon uses it), the nearest-even-with-sticky closure (big-integer path) and round_down is executed for every biased exponent of the callers' range on significands built from kept-bits x dropped-bits patterns; the packed result is compared with an exact u128 reference rounding. Mask helpers for every width (complete).",
+        exhaustive_over={"quick": "f64 exponents [-63,2100], f32 [-63,320] (every subnormal shift 1..64, the normal shift, every overflow case) x ~50 kept patterns x 9 dropped patterns x 3 closures; lower_n_mask/lower_n_halfway/nth_bit for 0..=64",
+                         "thorough": "every kept-bit position"},
+        assumptions=["packed bits are compared, never (mant, exp) pairs"]),
+})
+
 NOT_APPLICABLE = {}
 
 _VALUE_NOTE = ("trusted: the exact oracle in harness/core (naturals with multiply/shift/compare only), rustc, the host FPU for the crate's own fast path; "
                "bounded: f64 midpoints outside the pattern set, significands outside SEAM/HARD per exponent, digit strings beyond 10^6 are not enumerated")
 
 MANIFEST_TEXT = {
+    "C11": dict(level="The stage is driven directly through its public entry point on a structured and a number-theoretic (w,q,flag) family in both implementations; every definite answer is verified exactly, including the interval condition for truncated significands.", design_ref="DESIGN.md 4/C11", note="w outside the structured/HARD sets is not enumerated (2^64 per exponent)", technique="bounded-exhaustive enumeration of stage inputs on the real code, exact interval oracle"),
+    "C12": dict(level="Each operation is compared with naturals on an operand family built to put carries, zero limbs and the capacity edge at every position; pow and shl are complete over their exponent ranges.", design_ref="DESIGN.md 4/C12", note="operand values outside the LIMBS family are not enumerated", technique="bounded-exhaustive operand enumeration against a natural-number reference model"),
+    "C13": dict(level="All operation histories up to the stated depth over a 30-letter (resp. 12-letter) alphabet are executed on the real vectors against a reference sequence, without state merging so stale buffer contents cannot hide.", design_ref="DESIGN.md 4/C13", note="depth bound; limb values {0,1,MAX} and fixed extension contents", technique="exhaustive operation-history enumeration (depth-bounded) against a reference model"),
+    "C14": dict(level="Complete: the set of constants is finite and every one is recomputed from its definition in every configuration that has it.", design_ref="DESIGN.md 4/C14", note="definitions restated from the generators", technique="complete enumeration of a finite constant set, recomputation with naturals"),
+    "C17": dict(level="Complete for f32 (all 2^32 patterns); bounded family for f64.", design_ref="DESIGN.md 4/C17", note="f64 patterns outside the family not enumerated", technique="complete enumeration (f32) / bounded family (f64) of bit patterns against the IEEE decomposition"),
+    "C18": dict(level="Every shift the callers can request, with kept/dropped bit patterns that put the rounding decision on every side of half, carry and overflow; exact reference.", design_ref="DESIGN.md 4/C18", note="significand patterns are a family; mask helpers complete", technique="bounded-exhaustive enumeration of (significand, exponent, closure) against exact u128 rounding"),
     "C03": dict(level="Round trip decided by parsing back three renderings of every float in the stated sets; for f32 the thorough tier covers every finite value (complete), for f64 a pattern family in every binade.", design_ref="DESIGN.md 4/C03", note="renderings from core::fmt and the harness' exact expansion; f64 values outside the pattern family are not enumerated", technique="bounded-exhaustive enumeration of floats x renderings on the real code; complete for f32 in thorough tier"),
     "C04": dict(level="Every family member is executed in optimised and debug-assertion builds of five configurations under catch_unwind; absence of panics is a coverage statement over inputs that maximise big-integer size and hit every exponent-arithmetic site.", design_ref="DESIGN.md 4/C04", note="aborts are machinery failures; digit strings above 10^6 not explored", technique="bounded-exhaustive input enumeration x configurations x build profiles with a panic monitor"),
     "C05": dict(level="Differential exploration: identical, ordered families through eight separately compiled configurations, digests compared. Detects any configuration-dependent result within the families.", design_ref="DESIGN.md 4/C05", note="64-bit digests; families as C01/C02/C10", technique="bounded-exhaustive differential enumeration across 8 feature configurations"),
